@@ -9,6 +9,31 @@ pub trait VRecv: Sized {
             old(self).rem().len() == 0 ==> r is Err && final(self).rem() == old(self).rem(),
             old(self).rem().len() > 0 ==> r == Ok::<DltMessage, VxRecvError>(old(self).rem()[0]) && final(self).rem() == old(self).rem().skip(1);
 }
+// evmap write handle for the shared lifecycle table (`lcs_w`, R12): `update` replaces the entry of a key in the writer's pending
+// state, `refresh` makes everything pending visible to the readers (ASSUMED contract of evmap)
+pub trait VLcTab: Sized {
+    spec fn pending(&self) -> Map<u32, Lifecycle>;
+    spec fn visible(&self) -> Map<u32, Lifecycle>;
+    spec fn visible_msgs(&self) -> nat;   // the sum of nr_msgs over the visible entries
+    fn vx_update(&mut self, id: u32, item: Lifecycle)
+        ensures final(self).pending() == old(self).pending().insert(id, item), final(self).visible() == old(self).visible(), final(self).visible_msgs() == old(self).visible_msgs();
+    fn refresh(&mut self)
+        ensures final(self).visible() == old(self).visible().union_prefer_right(old(self).pending()), final(self).pending() == old(self).pending();
+}
+// the output closure (R12). `vis` is a ghost argument added at every call (R19): what a reader of the shared lifecycle table sees
+// at the moment of the call. C06 is the precondition: the lifecycle of the message is visible, with the message's ECU.
+pub trait VLcSink: Sized {
+    spec fn log(&self) -> Seq<DltMessage>;
+    spec fn never_fails(&self) -> bool;
+    fn send(&mut self, m: DltMessage, vis: Ghost<Map<u32, Lifecycle>>) -> (r: Result<(), DltMessage>)
+        requires
+            vis@.dom().contains(m.lifecycle) && vis@[m.lifecycle].ecu == m.ecu, // O:publish.at_delivery (the lifecycle of a message is visible, with the message's ECU, when the message is delivered)
+        ensures
+            r is Ok ==> final(self).log() == old(self).log().push(m),
+            r is Err ==> final(self).log() == old(self).log(),
+            final(self).never_fails() == old(self).never_fails(),
+            old(self).never_fails() ==> r is Ok;
+}
 #[verifier::external_body]
 pub struct VxDeque { q: std::collections::VecDeque<DltMessage> }
 impl VxDeque {
@@ -23,6 +48,8 @@ impl VQueue for VxDeque {
     #[verifier::external_body] fn push_back(&mut self, m: DltMessage) { unimplemented!() }
     #[verifier::external_body] fn pop_back(&mut self) -> (r: Option<DltMessage>) { unimplemented!() }
     #[verifier::external_body] fn push_front(&mut self, m: DltMessage) { unimplemented!() }
+    #[verifier::external_body] fn front(&self) -> (r: Option<&DltMessage>) { unimplemented!() }
+    #[verifier::external_body] fn back(&self) -> (r: Option<&DltMessage>) { unimplemented!() }
     #[verifier::external_body] fn vx_first(&self) -> (r: &DltMessage) { unimplemented!() }
 }
 #[verifier::external_body]
@@ -47,6 +74,7 @@ pub struct VxEcuMap { m: std::collections::HashMap<u32, Vec<Lifecycle>> }
 impl VxEcuMap {
     pub uninterp spec fn m(&self) -> Map<DltChar4, Seq<Lifecycle>>;
     pub uninterp spec fn keys(&self) -> Seq<DltChar4>;
+    pub uninterp spec fn kidx(&self, e: DltChar4) -> int;
     // the sum of nr_msgs over all lifecycles of all keys (a finite sum over the map: changes only by the entry that changes)
     pub uninterp spec fn total(&self) -> nat;
     #[verifier::external_body]
@@ -64,6 +92,7 @@ impl VxEcuMap {
     #[verifier::external_body]
     pub fn vx_nr_values(&self) -> (r: usize)
         ensures r == self.keys().len(),
+            keys_ok(self), // values() visits the value of every key exactly once: kidx is the inverse of keys
     { unimplemented!() }
     #[verifier::external_body]
     pub fn vx_value_at(&self, i: usize) -> (r: &Vec<Lifecycle>)
@@ -95,7 +124,7 @@ pub proof fn lemma_total_push(s: Seq<Lifecycle>, x: Lifecycle)
 pub proof fn lemma_total_empty()
     ensures seq_total(Seq::<Lifecycle>::empty()) == 0,
 {}
-pub open spec fn msg_in_ok(m: DltMessage) -> bool { m.reception_time_us <= T_MAX() && m.payload@.len() + 0x20000 <= usize::MAX }
+pub open spec fn msg_in_ok(m: DltMessage) -> bool { m.reception_time_us <= T_MAX() && m.payload@.len() + 0x20000 <= usize::MAX && m.index <= u32::MAX - 100_000 }
 // the forwarding clause: `all` (delivered ++ queued) is the old log followed by the received messages, each once, in the order
 // received, unchanged except for the lifecycle id, which is not 0
 pub open spec fn fwd_ok(all: Seq<DltMessage>, log0: Seq<DltMessage>, rcv: Seq<DltMessage>) -> bool {
@@ -117,6 +146,326 @@ pub fn vx_relabel_all(q: &mut VxDeque, from: u32, to: u32) -> (r: usize)
 pub fn vx_count_lc(q: &VxDeque, id: u32) -> (r: usize)
     ensures r < usize::MAX,
 { unimplemented!() }
+// ---- C06: ghost bookkeeping. pos: lifecycle id -> (ECU key, index) of the lifecycle in ecu_map; ids are pairwise distinct ----
+pub type Pos = Map<u32, (DltChar4, int)>;
+#[verifier::opaque]
+pub open spec fn pos_inv(pos: Pos, m: Map<DltChar4, Seq<Lifecycle>>) -> bool {
+    &&& forall|id: u32| #[trigger] pos.dom().contains(id) ==> m.dom().contains(pos[id].0) && 0 <= pos[id].1 < m[pos[id].0].len() && m[pos[id].0][pos[id].1].id == id
+    &&& forall|e: DltChar4, i: int| m.dom().contains(e) && 0 <= i < m[e].len() ==> pos.dom().contains((#[trigger] m[e][i]).id) && pos[m[e][i].id] == (e, i)
+}
+// a table entry of a lifecycle that is in the map carries the ECU the lifecycle is stored under
+#[verifier::opaque]
+pub open spec fn tab_ok(t: Map<u32, Lifecycle>, pos: Pos) -> bool {
+    forall|id: u32| #[trigger] t.dom().contains(id) && pos.dom().contains(id) ==> t[id].ecu == pos[id].0
+}
+// every lifecycle in the map is still buffered or already visible
+#[verifier::opaque]
+pub open spec fn known_ok(pos: Pos, buffered: Set<u32>, vis: Map<u32, Lifecycle>) -> bool {
+    forall|id: u32| #[trigger] pos.dom().contains(id) ==> buffered.contains(id) || vis.dom().contains(id)
+}
+// the lifecycle of every queued message is a lifecycle of the message's own ECU in the map
+#[verifier::opaque]
+pub open spec fn queued_ok(pos: Pos, q: Seq<DltMessage>) -> bool {
+    forall|i: int| 0 <= i < q.len() ==> pos.dom().contains((#[trigger] q[i]).lifecycle) && pos[q[i].lifecycle].0 == q[i].ecu
+}
+// ASSUMPTION (R10): the process-wide counter NEXT_LC_ID hands out ids that no lifecycle in the map or in the table carries
+// (fewer than 2^32 lifecycles per process; the entries of a pre-populated table came from the same counter). Only called, in
+// proof hints, for the id of a lifecycle that Lifecycle::new has just created.
+#[verifier::external_body]
+pub proof fn axiom_fresh_lc_id(id: u32, pos: Pos, pen: Map<u32, Lifecycle>, vis: Map<u32, Lifecycle>)
+    ensures !pos.dom().contains(id), !pen.dom().contains(id), !vis.dom().contains(id),
+{}
+
+pub open spec fn list_at(m: Map<DltChar4, Seq<Lifecycle>>, e: DltChar4) -> Seq<Lifecycle> { if m.dom().contains(e) { m[e] } else { Seq::<Lifecycle>::empty() } }
+// C06 at a delivery: the lifecycle of the message is visible in the table, with the message's ECU
+pub open spec fn sendable(vis: Map<u32, Lifecycle>, m: DltMessage) -> bool { vis.dom().contains(m.lifecycle) && vis[m.lifecycle].ecu == m.ecu }
+// the lifecycle id of the message denotes a lifecycle of the message's own ECU in the map
+pub open spec fn located(pos: Pos, m: DltMessage) -> bool { pos.dom().contains(m.lifecycle) && pos[m.lifecycle].0 == m.ecu }
+pub open spec fn same_ids(l1: Seq<Lifecycle>, l0: Seq<Lifecycle>) -> bool { l1.len() == l0.len() && forall|i: int| 0 <= i < l1.len() ==> (#[trigger] l1[i]).id == l0[i].id }
+
+pub proof fn lemma_pos_at(pos: Pos, m: Map<DltChar4, Seq<Lifecycle>>, e: DltChar4, i: int)
+    requires pos_inv(pos, m), m.dom().contains(e), 0 <= i < m[e].len(),
+    ensures pos.dom().contains(m[e][i].id) && pos[m[e][i].id] == (e, i),
+{ reveal(pos_inv); }
+// the list of one ECU is replaced by a list with the same ids at the same places
+pub proof fn lemma_pos_same_ids(pos: Pos, m0: Map<DltChar4, Seq<Lifecycle>>, e: DltChar4, l1: Seq<Lifecycle>)
+    requires pos_inv(pos, m0), same_ids(l1, list_at(m0, e)),
+    ensures pos_inv(pos, m0.insert(e, l1)),
+{
+    reveal(pos_inv);
+    let m1 = m0.insert(e, l1);
+    assert forall|id: u32| #[trigger] pos.dom().contains(id) implies m1.dom().contains(pos[id].0) && 0 <= pos[id].1 < m1[pos[id].0].len() && m1[pos[id].0][pos[id].1].id == id by {
+        if pos[id].0 == e { assert(m0[e] == list_at(m0, e)); }
+    }
+    assert forall|e2: DltChar4, i: int| m1.dom().contains(e2) && 0 <= i < m1[e2].len() implies pos.dom().contains((#[trigger] m1[e2][i]).id) && pos[m1[e2][i].id] == (e2, i) by {
+        if e2 == e { assert(m0.dom().contains(e)); assert(m0[e][i].id == l1[i].id); } else { assert(m0[e2][i] == m1[e2][i]); }
+    }
+}
+// a lifecycle with a fresh id is appended to the list of one ECU
+pub proof fn lemma_pos_push(pos: Pos, m0: Map<DltChar4, Seq<Lifecycle>>, e: DltChar4, x: Lifecycle)
+    requires pos_inv(pos, m0), m0.dom().contains(e), !pos.dom().contains(x.id),
+    ensures pos_inv(pos.insert(x.id, (e, m0[e].len() as int)), m0.insert(e, m0[e].push(x))),
+{
+    reveal(pos_inv);
+    let p1 = pos.insert(x.id, (e, m0[e].len() as int));
+    let m1 = m0.insert(e, m0[e].push(x));
+    assert forall|id: u32| #[trigger] p1.dom().contains(id) implies m1.dom().contains(p1[id].0) && 0 <= p1[id].1 < m1[p1[id].0].len() && m1[p1[id].0][p1[id].1].id == id by {
+        if id != x.id { assert(pos.dom().contains(id)); if pos[id].0 == e { assert(m1[e][pos[id].1] == m0[e][pos[id].1]); } }
+    }
+    assert forall|e2: DltChar4, i: int| m1.dom().contains(e2) && 0 <= i < m1[e2].len() implies p1.dom().contains((#[trigger] m1[e2][i]).id) && p1[m1[e2][i].id] == (e2, i) by {
+        if e2 == e { if i < m0[e].len() { assert(m1[e][i] == m0[e][i]); assert(pos.dom().contains(m0[e][i].id)); } } else { assert(m0[e2][i] == m1[e2][i]); assert(pos.dom().contains(m0[e2][i].id)); }
+    }
+}
+// the last lifecycle of one ECU's list is removed
+pub proof fn lemma_pos_drop_last(pos: Pos, m1: Map<DltChar4, Seq<Lifecycle>>, e: DltChar4)
+    requires pos_inv(pos, m1), m1.dom().contains(e), m1[e].len() > 0,
+    ensures pos_inv(pos.remove(m1[e].last().id), m1.insert(e, m1[e].drop_last())),
+{
+    reveal(pos_inv);
+    let l = m1[e];
+    let gone = l.last().id;
+    let p2 = pos.remove(gone);
+    let m2 = m1.insert(e, l.drop_last());
+    assert(pos.dom().contains(l[l.len() - 1].id) && pos[gone] == (e, l.len() - 1));
+    assert forall|id: u32| #[trigger] p2.dom().contains(id) implies m2.dom().contains(p2[id].0) && 0 <= p2[id].1 < m2[p2[id].0].len() && m2[p2[id].0][p2[id].1].id == id by {
+        assert(pos.dom().contains(id));
+        if pos[id].0 == e { assert(m1[e][pos[id].1].id == id); assert(pos[id].1 != l.len() - 1); assert(m2[e][pos[id].1] == l[pos[id].1]); }
+    }
+    assert forall|e2: DltChar4, i: int| m2.dom().contains(e2) && 0 <= i < m2[e2].len() implies p2.dom().contains((#[trigger] m2[e2][i]).id) && p2[m2[e2][i].id] == (e2, i) by {
+        if e2 == e { assert(m2[e][i] == l[i]); assert(pos[l[i].id] == (e, i)); } else { assert(m1[e2][i] == m2[e2][i]); assert(pos[m1[e2][i].id] == (e2, i)); }
+    }
+}
+pub proof fn lemma_queued_empty(pos: Pos)
+    ensures queued_ok(pos, Seq::<DltMessage>::empty()),
+{ reveal(queued_ok); }
+pub proof fn lemma_queued_skip(pos: Pos, q: Seq<DltMessage>)
+    requires queued_ok(pos, q), q.len() > 0,
+    ensures queued_ok(pos, q.skip(1)), located(pos, q[0]),
+{
+    reveal(queued_ok);
+    assert forall|i: int| 0 <= i < q.skip(1).len() implies pos.dom().contains((#[trigger] q.skip(1)[i]).lifecycle) && pos[q.skip(1)[i].lifecycle].0 == q.skip(1)[i].ecu by { assert(q.skip(1)[i] == q[i + 1]); }
+}
+pub proof fn lemma_queued_push(pos: Pos, q: Seq<DltMessage>, m: DltMessage)
+    requires queued_ok(pos, q), located(pos, m),
+    ensures queued_ok(pos, q.push(m)),
+{
+    reveal(queued_ok);
+    assert forall|i: int| 0 <= i < q.push(m).len() implies pos.dom().contains((#[trigger] q.push(m)[i]).lifecycle) && pos[q.push(m)[i].lifecycle].0 == q.push(m)[i].ecu by { if i < q.len() { assert(q.push(m)[i] == q[i]); } }
+}
+// ---- one lemma per way the assignment step changes the map (all C06 bookkeeping of that step) ----
+// (a) the ids in the map do not change (update without merge)
+pub proof fn lemma_step_same(pos: Pos, m0: Map<DltChar4, Seq<Lifecycle>>, e: DltChar4, l1: Seq<Lifecycle>)
+    requires pos_inv(pos, m0), same_ids(l1, list_at(m0, e)), l1.len() > 0,
+    ensures pos_inv(pos, m0.insert(e, l1)), pos.dom().contains(l1.last().id) && pos[l1.last().id].0 == e,
+{
+    lemma_pos_same_ids(pos, m0, e, l1);
+    lemma_pos_at(pos, m0.insert(e, l1), e, l1.len() - 1);
+}
+// (b) a freshly created lifecycle x is appended (and inserted into the set of buffered lifecycles)
+pub proof fn lemma_step_new(pos: Pos, m0: Map<DltChar4, Seq<Lifecycle>>, e: DltChar4, l1: Seq<Lifecycle>, x: Lifecycle, buffered: Set<u32>, vis: Map<u32, Lifecycle>, pen: Map<u32, Lifecycle>, q: Seq<DltMessage>)
+    requires
+        pos_inv(pos, m0), same_ids(l1, list_at(m0, e)),
+        !pos.dom().contains(x.id) && !pen.dom().contains(x.id) && !vis.dom().contains(x.id),
+        known_ok(pos, buffered, vis), tab_ok(vis, pos), tab_ok(pen, pos), queued_ok(pos, q),
+    ensures ({
+        let pos1 = pos.insert(x.id, (e, l1.len() as int));
+        pos_inv(pos1, m0.insert(e, l1.push(x))) && known_ok(pos1, buffered.insert(x.id), vis) && tab_ok(vis, pos1) && tab_ok(pen, pos1) && queued_ok(pos1, q)
+    }),
+{
+    let pos1 = pos.insert(x.id, (e, l1.len() as int));
+    lemma_pos_same_ids(pos, m0, e, l1);
+    lemma_pos_push(pos, m0.insert(e, l1), e, x);
+    assert(m0.insert(e, l1).insert(e, l1.push(x)) =~= m0.insert(e, l1.push(x)));
+    reveal(known_ok); reveal(tab_ok); reveal(queued_ok);
+    assert forall|i: int| 0 <= i < q.len() implies pos1.dom().contains((#[trigger] q[i]).lifecycle) && pos1[q[i].lifecycle].0 == q[i].ecu by { assert(pos.dom().contains(q[i].lifecycle)); }
+}
+// (c) the last lifecycle (id `from`) was merged into its predecessor (id `to`), the queued messages re-labelled, `from` removed
+// from the map and from the set of buffered lifecycles
+pub proof fn lemma_step_merge(pos: Pos, m0: Map<DltChar4, Seq<Lifecycle>>, e: DltChar4, l1: Seq<Lifecycle>, buffered: Set<u32>, vis: Map<u32, Lifecycle>, pen: Map<u32, Lifecycle>, q: Seq<DltMessage>, q2: Seq<DltMessage>)
+    requires
+        pos_inv(pos, m0), same_ids(l1, list_at(m0, e)), l1.len() >= 2,
+        known_ok(pos, buffered, vis), tab_ok(vis, pos), tab_ok(pen, pos), queued_ok(pos, q),
+        q2.len() == q.len(), forall|i: int| 0 <= i < q.len() ==> #[trigger] q2[i] == relabel(q[i], l1.last().id, l1[l1.len() - 2].id),
+    ensures ({
+        let pos1 = pos.remove(l1.last().id);
+        pos_inv(pos1, m0.insert(e, l1.drop_last())) && known_ok(pos1, buffered.remove(l1.last().id), vis) && tab_ok(vis, pos1) && tab_ok(pen, pos1) && queued_ok(pos1, q2)
+            && pos1.dom().contains(l1[l1.len() - 2].id) && pos1[l1[l1.len() - 2].id].0 == e
+    }),
+{
+    let from = l1.last().id;
+    let to = l1[l1.len() - 2].id;
+    let pos1 = pos.remove(from);
+    let m1 = m0.insert(e, l1);
+    lemma_pos_same_ids(pos, m0, e, l1);
+    lemma_pos_at(pos, m1, e, l1.len() - 1);
+    lemma_pos_at(pos, m1, e, l1.len() - 2);
+    assert(from != to);
+    lemma_pos_drop_last(pos, m1, e);
+    assert(m1.insert(e, l1.drop_last()) =~= m0.insert(e, l1.drop_last()));
+    reveal(known_ok); reveal(tab_ok); reveal(queued_ok);
+    assert forall|i: int| 0 <= i < q2.len() implies pos1.dom().contains((#[trigger] q2[i]).lifecycle) && pos1[q2[i].lifecycle].0 == q2[i].ecu by {
+        assert(q2[i] == relabel(q[i], from, to));
+        assert(pos.dom().contains(q[i].lifecycle) && pos[q[i].lifecycle].0 == q[i].ecu);
+    }
+}
+// ---- deliveries ----
+// nothing is buffered: every queued message and the current message can be delivered
+pub proof fn lemma_all_sendable(pos: Pos, buffered: Set<u32>, vis: Map<u32, Lifecycle>, q: Seq<DltMessage>)
+    requires known_ok(pos, buffered, vis), tab_ok(vis, pos), queued_ok(pos, q), forall|x: u32| !buffered.contains(x),
+    ensures forall|i: int| 0 <= i < q.len() ==> sendable(vis, #[trigger] q[i]),
+{ reveal(known_ok); reveal(tab_ok); reveal(queued_ok); }
+pub proof fn lemma_one_sendable(pos: Pos, buffered: Set<u32>, vis: Map<u32, Lifecycle>, m: DltMessage)
+    requires known_ok(pos, buffered, vis), tab_ok(vis, pos), located(pos, m), !buffered.contains(m.lifecycle),
+    ensures sendable(vis, m),
+{ reveal(known_ok); reveal(tab_ok); }
+// every queued message whose lifecycle is not buffered can be delivered
+pub proof fn lemma_unbuffered_sendable(pos: Pos, buffered: Set<u32>, vis: Map<u32, Lifecycle>, q: Seq<DltMessage>)
+    requires known_ok(pos, buffered, vis), tab_ok(vis, pos), queued_ok(pos, q),
+    ensures forall|i: int| 0 <= i < q.len() && !buffered.contains((#[trigger] q[i]).lifecycle) ==> sendable(vis, q[i]),
+{ reveal(known_ok); reveal(tab_ok); reveal(queued_ok); }
+// a lifecycle of the map is confirmed: it leaves the set of buffered lifecycles, is written to the table, the table is refreshed
+pub proof fn lemma_confirm(pos: Pos, m: Map<DltChar4, Seq<Lifecycle>>, e: DltChar4, j: int, item: Lifecycle, buffered: Set<u32>, vis: Map<u32, Lifecycle>, pen: Map<u32, Lifecycle>)
+    requires
+        pos_inv(pos, m), map_ok(m), m.dom().contains(e), 0 <= j < m[e].len(), item.ecu == m[e][j].ecu,
+        known_ok(pos, buffered, vis), tab_ok(vis, pos), tab_ok(pen, pos),
+    ensures ({
+        let id = m[e][j].id;
+        let pen1 = pen.insert(id, item);
+        let vis1 = vis.union_prefer_right(pen1);
+        known_ok(pos, buffered.remove(id), vis1) && tab_ok(vis1, pos) && tab_ok(pen1, pos) && vis1.dom().contains(id)
+    }),
+{
+    lemma_pos_at(pos, m, e, j);
+    reveal(known_ok); reveal(tab_ok);
+    assert(lc_ok(e, m[e][j]));
+}
+// a lifecycle of the map is written to the table (no refresh yet)
+pub proof fn lemma_publish(pos: Pos, m: Map<DltChar4, Seq<Lifecycle>>, e: DltChar4, j: int, item: Lifecycle, pen: Map<u32, Lifecycle>)
+    requires pos_inv(pos, m), map_ok(m), m.dom().contains(e), 0 <= j < m[e].len(), item.ecu == m[e][j].ecu, tab_ok(pen, pos),
+    ensures tab_ok(pen.insert(m[e][j].id, item), pos),
+{
+    lemma_pos_at(pos, m, e, j);
+    reveal(tab_ok);
+    assert(lc_ok(e, m[e][j]));
+}
+pub proof fn lemma_tab_union(pos: Pos, vis: Map<u32, Lifecycle>, pen: Map<u32, Lifecycle>)
+    requires tab_ok(vis, pos), tab_ok(pen, pos),
+    ensures tab_ok(vis.union_prefer_right(pen), pos),
+{ reveal(tab_ok); }
+pub proof fn lemma_refresh(pos: Pos, buffered: Set<u32>, vis: Map<u32, Lifecycle>, pen: Map<u32, Lifecycle>)
+    requires known_ok(pos, buffered, vis), tab_ok(vis, pos), tab_ok(pen, pos),
+    ensures known_ok(pos, buffered, vis.union_prefer_right(pen)), tab_ok(vis.union_prefer_right(pen), pos),
+{ reveal(known_ok); reveal(tab_ok); }
+pub proof fn lemma_known_monotone(pos: Pos, buffered: Set<u32>, vis: Map<u32, Lifecycle>, vis2: Map<u32, Lifecycle>)
+    requires known_ok(pos, buffered, vis), forall|id: u32| #[trigger] vis.dom().contains(id) ==> vis2.dom().contains(id),
+    ensures known_ok(pos, buffered, vis2),
+{ reveal(known_ok); }
+
+// ---- the final publication (`for vs in ecu_map.values() { .. for lc in vs.iter().rev() { .. } }` with the early exit once as many
+// lifecycles were written as there are buffered ones): every buffered lifecycle of the map is written to the table ----
+pub open spec fn visited(mp: &VxEcuMap, p: (DltChar4, int), vi: int, lj: int) -> bool { 0 <= mp.kidx(p.0) < vi - 1 || (mp.kidx(p.0) == vi - 1 && p.1 >= lj) }
+#[verifier::opaque]
+pub open spec fn pub_cnt(pos: Pos, bset: Set<u32>, found: Set<u32>, pen: Map<u32, Lifecycle>, nr: int) -> bool {
+    &&& found.subset_of(bset)
+    &&& forall|id: u32| #[trigger] found.contains(id) ==> pen.dom().contains(id) && pos.dom().contains(id)
+    &&& nr + found.len() == bset.len() && nr >= 0
+}
+// the cursor is at lifecycle lj of key vi-1 (counting down): exactly the buffered lifecycles before the cursor were found
+#[verifier::opaque]
+pub open spec fn pub_cur(pos: Pos, mp: &VxEcuMap, bset: Set<u32>, found: Set<u32>, vi: int, lj: int) -> bool {
+    &&& forall|id: u32| #[trigger] pos.dom().contains(id) && bset.contains(id) && visited(mp, pos[id], vi, lj) ==> found.contains(id)
+    &&& forall|id: u32| #[trigger] found.contains(id) ==> visited(mp, pos[id], vi, lj)
+}
+// all keys with an index below vi were visited completely
+#[verifier::opaque]
+pub open spec fn pub_done_keys(pos: Pos, mp: &VxEcuMap, bset: Set<u32>, found: Set<u32>, vi: int) -> bool {
+    &&& forall|id: u32| #[trigger] pos.dom().contains(id) && bset.contains(id) && 0 <= mp.kidx(pos[id].0) < vi ==> found.contains(id)
+    &&& forall|id: u32| #[trigger] found.contains(id) ==> 0 <= mp.kidx(pos[id].0) < vi
+}
+#[verifier::opaque]
+pub open spec fn all_pending(pos: Pos, bset: Set<u32>, pen: Map<u32, Lifecycle>) -> bool {
+    forall|id: u32| #[trigger] pos.dom().contains(id) && bset.contains(id) ==> pen.dom().contains(id)
+}
+pub open spec fn keys_ok(mp: &VxEcuMap) -> bool {
+    &&& forall|e: DltChar4| #[trigger] mp.m().dom().contains(e) ==> 0 <= mp.kidx(e) < mp.keys().len() && mp.keys()[mp.kidx(e)] == e
+    &&& forall|a: int| 0 <= a < mp.keys().len() ==> mp.m().dom().contains(#[trigger] mp.keys()[a]) && mp.kidx(mp.keys()[a]) == a
+}
+pub proof fn lemma_pub_init(pos: Pos, mp: &VxEcuMap, bset: Set<u32>, pen: Map<u32, Lifecycle>)
+    ensures pub_cnt(pos, bset, Set::<u32>::empty(), pen, bset.len() as int), pub_done_keys(pos, mp, bset, Set::<u32>::empty(), 0),
+{
+    reveal(pub_cnt); reveal(pub_done_keys);
+}
+pub proof fn lemma_pub_enter(pos: Pos, mp: &VxEcuMap, bset: Set<u32>, found: Set<u32>, vi: int)
+    requires pos_inv(pos, mp.m()), keys_ok(mp), 1 <= vi <= mp.keys().len(), pub_done_keys(pos, mp, bset, found, vi - 1),
+    ensures pub_cur(pos, mp, bset, found, vi, mp.m()[mp.keys()[vi - 1]].len() as int),
+{
+    reveal(pub_cur); reveal(pub_done_keys); reveal(pos_inv);
+    let len = mp.m()[mp.keys()[vi - 1]].len() as int;
+    assert forall|id: u32| #[trigger] pos.dom().contains(id) && bset.contains(id) && visited(mp, pos[id], vi, len) implies found.contains(id) by {
+        if mp.kidx(pos[id].0) == vi - 1 { assert(mp.keys()[mp.kidx(pos[id].0)] == pos[id].0); }
+    }
+}
+pub proof fn lemma_pub_leave(pos: Pos, mp: &VxEcuMap, bset: Set<u32>, found: Set<u32>, vi: int)
+    requires pos_inv(pos, mp.m()), pub_cur(pos, mp, bset, found, vi, 0), 1 <= vi,
+    ensures pub_done_keys(pos, mp, bset, found, vi),
+{
+    reveal(pub_cur); reveal(pub_done_keys); reveal(pos_inv);
+}
+// the lifecycle at the cursor is not buffered: the cursor moves on
+pub proof fn lemma_pub_skip(pos: Pos, mp: &VxEcuMap, bset: Set<u32>, found: Set<u32>, vi: int, lj: int)
+    requires
+        pos_inv(pos, mp.m()), keys_ok(mp), 1 <= vi <= mp.keys().len(), 0 <= lj < mp.m()[mp.keys()[vi - 1]].len(),
+        pub_cur(pos, mp, bset, found, vi, lj + 1), !bset.contains(mp.m()[mp.keys()[vi - 1]][lj].id),
+    ensures pub_cur(pos, mp, bset, found, vi, lj),
+{
+    reveal(pub_cur); reveal(pos_inv);
+    let e = mp.keys()[vi - 1];
+    assert forall|id: u32| #[trigger] pos.dom().contains(id) && bset.contains(id) && visited(mp, pos[id], vi, lj) implies found.contains(id) by {
+        if mp.kidx(pos[id].0) == vi - 1 && pos[id].1 == lj { assert(mp.keys()[mp.kidx(pos[id].0)] == pos[id].0); assert(mp.m()[e][lj].id == id); }
+    }
+}
+// the lifecycle at the cursor is buffered: it is written to the table and counted
+pub proof fn lemma_pub_found(pos: Pos, mp: &VxEcuMap, bset: Set<u32>, found: Set<u32>, pen: Map<u32, Lifecycle>, item: Lifecycle, nr: int, vi: int, lj: int)
+    requires
+        pos_inv(pos, mp.m()), keys_ok(mp), 1 <= vi <= mp.keys().len(), 0 <= lj < mp.m()[mp.keys()[vi - 1]].len(),
+        pub_cur(pos, mp, bset, found, vi, lj + 1), pub_cnt(pos, bset, found, pen, nr), bset.contains(mp.m()[mp.keys()[vi - 1]][lj].id),
+    ensures ({
+        let id = mp.m()[mp.keys()[vi - 1]][lj].id;
+        pub_cur(pos, mp, bset, found.insert(id), vi, lj) && pub_cnt(pos, bset, found.insert(id), pen.insert(id, item), nr - 1) && nr >= 1
+    }),
+{
+    reveal(pub_cur); reveal(pub_cnt);
+    let e = mp.keys()[vi - 1];
+    let id = mp.m()[e][lj].id;
+    lemma_pos_at(pos, mp.m(), e, lj);
+    assert(!found.contains(id)) by { if found.contains(id) { assert(visited(mp, pos[id], vi, lj + 1)); } }
+    vstd::set_lib::lemma_len_subset(found.insert(id), bset);
+    reveal(pos_inv);
+    assert forall|id2: u32| #[trigger] pos.dom().contains(id2) && bset.contains(id2) && visited(mp, pos[id2], vi, lj) implies found.insert(id).contains(id2) by {
+        if mp.kidx(pos[id2].0) == vi - 1 && pos[id2].1 == lj { assert(mp.keys()[mp.kidx(pos[id2].0)] == pos[id2].0); assert(mp.m()[e][lj].id == id2); }
+    }
+}
+pub proof fn lemma_pub_all(pos: Pos, mp: &VxEcuMap, bset: Set<u32>, found: Set<u32>, pen: Map<u32, Lifecycle>, nr: int, vi: int)
+    requires
+        pos_inv(pos, mp.m()), keys_ok(mp), pub_cnt(pos, bset, found, pen, nr),
+        nr == 0 || (vi == mp.keys().len() && pub_done_keys(pos, mp, bset, found, vi)),
+    ensures all_pending(pos, bset, pen),
+{
+    reveal(pub_cnt); reveal(all_pending); reveal(pub_done_keys); reveal(pos_inv);
+    if nr == 0 {
+        vstd::set_lib::lemma_subset_equality(found, bset);
+    }
+}
+// after the final refresh every lifecycle of the map is visible
+pub proof fn lemma_final_refresh(pos: Pos, buffered: Set<u32>, vis: Map<u32, Lifecycle>, pen: Map<u32, Lifecycle>, q: Seq<DltMessage>)
+    requires known_ok(pos, buffered, vis), tab_ok(vis, pos), tab_ok(pen, pos), all_pending(pos, buffered, pen), queued_ok(pos, q),
+    ensures
+        tab_ok(vis.union_prefer_right(pen), pos), known_ok(pos, Set::<u32>::empty(), vis.union_prefer_right(pen)),
+        forall|i: int| 0 <= i < q.len() ==> sendable(vis.union_prefer_right(pen), #[trigger] q[i]),
+{
+    reveal(known_ok); reveal(tab_ok); reveal(all_pending); reveal(queued_ok);
+}
+
 pub proof fn lemma_total_2(r: Seq<Lifecycle>, a: Lifecycle, b: Lifecycle)
     ensures seq_total(r.push(a).push(b)) == seq_total(r) + a.nr_msgs + b.nr_msgs,
 { lemma_total_push(r, a); lemma_total_push(r.push(a), b); }
@@ -159,38 +508,93 @@ pub proof fn lemma_fwd_push(all: Seq<DltMessage>, log0: Seq<DltMessage>, rcv: Se
     }
 }
 
+// `if let Some(lci) = lcs_w.read() { for (_id, b) in &lci { .. } }`: the map is pre-populated from the visible table (evmap
+// iteration, not modelled). ASSUMED: the visible entries are well-formed lifecycles with pairwise distinct ids; each is stored
+// under its own ECU.
 #[verifier::external_body]
-pub fn vx_prepopulate<T: VLcTable>(mp: &mut VxEcuMap, t: &T)
+pub fn vx_prepopulate<T: VLcTab>(mp: &mut VxEcuMap, t: &T) -> (pos: Ghost<Pos>)
     requires old(mp).m() == Map::<DltChar4, Seq<Lifecycle>>::empty(),
-    ensures map_ok(final(mp).m()), final(mp).total() == t.visible_msgs(),
+    ensures map_ok(final(mp).m()), final(mp).total() == t.visible_msgs(), pos_inv(pos@, final(mp).m()), tab_ok(t.visible(), pos@),
+        forall|id: u32| #[trigger] pos@.dom().contains(id) ==> t.visible().dom().contains(id),
 { unimplemented!() }
+// `last_lcw_refresh_index += 1` (a u32 counter of table refreshes): ASSUMED not to overflow (fewer than 2^32 refreshes)
 #[verifier::external_body]
 pub fn vx_bump(x: &mut u32)
 { unimplemented!() }
+// (stated for every T; only used at T = u32, whose == is structural)
+pub assume_specification<T: std::cmp::PartialEq> [<[T]>::contains] (s: &[T], x: &T) -> (r: bool)
+    ensures r == s@.contains(*x);
+// Lifecycle: Clone (derived): ASSUMED structural
 #[verifier::external_body]
-pub fn vx_mark_lc_id_to_refresh(id: u32, v: &mut Vec<u32>)
+pub fn vx_clone_lc(lc: &Lifecycle) -> (r: Lifecycle)
+    ensures r == *lc,
 { unimplemented!() }
-#[verifier::external_body]
-pub fn vx_check_regular_refresh<T: VLcTable>(last_regular_refresh_index: &mut u32, last_msg_index: u32, force_refresh: bool, lcs_to_refresh: &mut Vec<u32>, lcs_w: &mut T, ecu_map: &VxEcuMap, last_lcw_refresh_index: &mut u32)
-{ unimplemented!() }
+//@ extract src/lifecycle/mod.rs fn new_lifecycle_item
+//@   sub R11 `lc.clone()` => `vx_clone_lc(lc)`
+//@   sub R12 `-> LifecycleItem` => `-> Lifecycle`
+//@   spec
+//@|    ensures r.id == lc.id && r.ecu == lc.ecu && r.nr_msgs == lc.nr_msgs, // O:publish.item (the published item carries the lifecycle's id, ECU and message count)
+//@ end
+// the two helper closures of the function, presented as functions (R18); the captured `last_regular_refresh_index` becomes a parameter
+//@ extract src/lifecycle/mod.rs closure fn parse_lifecycles_buffered_from_stream#1
+//@   sig pub fn vx_mark_lc_id_to_refresh(id: LifecycleId, lcs_to_refresh: &mut Vec<LifecycleId>)
+//@ end
+//@ extract src/lifecycle/mod.rs closure fn parse_lifecycles_buffered_from_stream#2
+//@   sig #[verifier::loop_isolation(false)] #[verifier::allow_complex_invariants] pub fn vx_check_regular_refresh<T: VLcTab>(pos: Ghost<Pos>, last_regular_refresh_index: &mut u32, last_msg_index: u32, force_refresh: bool, lcs_to_refresh: &mut Vec<LifecycleId>, lcs_w: &mut T, ecu_map: &VxEcuMap, last_lcw_refresh_index: &mut u32)
+//@   sub R18 `last_regular_refresh_index + 100_000 < last_msg_index` => `*last_regular_refresh_index + 100_000 < last_msg_index`
+//@   sub R18 `last_regular_refresh_index = last_msg_index;` => `*last_regular_refresh_index = last_msg_index;`
+//@   sub R13 `for vs in ecu_map.values() {` => `let vx_nv = ecu_map.vx_nr_values(); let mut vx_vi: usize = 0; while vx_vi < vx_nv { let vs = ecu_map.vx_value_at(vx_vi); vx_vi += 1;`
+//@   sub R13 `for lc in vs.iter().rev() {` => `let mut vx_lj: usize = vs.len(); while vx_lj > 0 { vx_lj -= 1; let lc = &vs[vx_lj];`
+//@   sub R12 `lcs_w.update(` => `lcs_w.vx_update(` *
+//@   sub R11 `*last_lcw_refresh_index += 1;` => `vx_bump(last_lcw_refresh_index);`
+//@   spec
+//@|    requires
+//@|        *old(last_regular_refresh_index) <= u32::MAX - 100_000 && last_msg_index <= u32::MAX - 100_000, // fewer than 2^32 - 100000 messages
+//@|        map_ok(ecu_map.m()), pos_inv(pos@, ecu_map.m()), tab_ok(old(lcs_w).visible(), pos@), tab_ok(old(lcs_w).pending(), pos@),
+//@|    ensures
+//@|        tab_ok(final(lcs_w).visible(), pos@), tab_ok(final(lcs_w).pending(), pos@), // O:publish.refresh.ecu
+//@|        forall|id: u32| #[trigger] old(lcs_w).visible().dom().contains(id) ==> final(lcs_w).visible().dom().contains(id), // O:publish.refresh.monotone (nothing that was visible disappears)
+//@|        *final(last_regular_refresh_index) <= u32::MAX - 100_000,
+//@   hint before `lcs_w.vx_update(lc.id`
+//@|    let ghost pen_c = lcs_w.pending();
+//@   hint after `lcs_w.vx_update(lc.id`
+//@|    proof {
+//@|        let e = ecu_map.keys()[vx_vi - 1];
+//@|        assert(ecu_map.m()[e][vx_lj as int] == *lc);
+//@|        lemma_publish(pos@, ecu_map.m(), e, vx_lj as int, lcs_w.pending()[lc.id], pen_c);
+//@|        assert(lcs_w.pending() =~= pen_c.insert(lc.id, lcs_w.pending()[lc.id]));
+//@|    }
+//@   hint before `lcs_w.refresh();`
+//@|    proof { lemma_tab_union(pos@, lcs_w.visible(), lcs_w.pending()); }
+//@   loop inner `let mut vx_lj: usize = vs.len()`
+//@|    invariant
+//@|        vx_vi <= vx_nv, lcs_w.visible() == old(lcs_w).visible(), tab_ok(lcs_w.pending(), pos@),
+//@|    decreases vx_nv - vx_vi,
+//@   loop inner `nr_lcs_to_update -= 1`
+//@|    invariant_except_break
+//@|        nr_lcs_to_update > 0,
+//@|    invariant
+//@|        vx_lj <= vs.len(), lcs_w.visible() == old(lcs_w).visible(), tab_ok(lcs_w.pending(), pos@),
+//@|    decreases vx_lj,
+//@ end
 
 //@ extract src/lifecycle/mod.rs fn parse_lifecycles_buffered_from_stream
 //@   sub R19 `pub fn parse_lifecycles_buffered_from_stream` => `#[verifier::loop_isolation(false)] #[verifier::allow_complex_invariants] pub fn parse_lifecycles_buffered_from_stream`
-//@   sub R12 `<M, S, F: Fn(DltMessage) -> SendMsgFnReturnType>` => `<T: VLcTable, I: VRecv, K: VSink>`
+//@   sub R12 `<M, S, F: Fn(DltMessage) -> SendMsgFnReturnType>` => `<T: VLcTab, I: VRecv, K: VLcSink>`
 //@   sub R12 `mut lcs_w: evmap::WriteHandle<LifecycleId, LifecycleItem, M, S>,` => `mut lcs_w: T,`
 //@   sub R12 `inflow: Receiver<DltMessage>` => `mut inflow: I`
 //@   sub R12 `outflow: &F` => `outflow: &mut K`
 //@   sub R12 `-> evmap::WriteHandle<LifecycleId, LifecycleItem, M, S>` => `-> T`
 //@   sub R12 `where S: std::hash::BuildHasher + Clone, M: 'static + Clone,` => ``
 //@   sub R11 `std::collections::HashMap::with_capacity_and_hasher(__)` => `VxEcuMap::vx_new()`
-//@   sub R11 `if let Some(lci) = lcs_w.read() { __ }` => `vx_prepopulate(&mut ecu_map, &lcs_w);`
+//@   sub R11 `if let Some(lci) = lcs_w.read() { __ }` => `let vx_pos0 = vx_prepopulate(&mut ecu_map, &lcs_w);`
 //@   sub R11 `std::collections::VecDeque<DltMessage>` => `VxDeque`
 //@   sub R11 `std::collections::VecDeque::with_capacity(10_000_000)` => `VxDeque::vx_new()`
 //@   sub R11 `std::collections::HashSet::with_hasher(__)` => `VxIdSet::vx_new()`
 //@   cut R11 `let mark_lc_id_to_refresh =`
 //@   cut R11 `let mut check_regular_refresh =`
 //@   sub R11 `mark_lc_id_to_refresh(` => `vx_mark_lc_id_to_refresh(` *
-//@   sub R11 `check_regular_refresh(` => `vx_check_regular_refresh(&mut last_regular_refresh_index,` *
+//@   sub R11 `check_regular_refresh(` => `vx_check_regular_refresh(Ghost(pos), &mut last_regular_refresh_index,` *
 //@   sub R13 `for mut msg in inflow {` => `loop { let mut msg = match inflow.recv() { Ok(vx_m) => vx_m, Err(_) => break };`
 //@   sub R11 `ecu_map.entry(msg.ecu).or_default()` => `ecu_map.vx_entry_or_default(msg.ecu)`
 //@   sub R11 `ecu_lcs.as_mut_slice().split_last_mut().unwrap()` => `vx_split_last_mut(ecu_lcs)`
@@ -201,17 +605,18 @@ pub fn vx_check_regular_refresh<T: VLcTable>(last_regular_refresh_index: &mut u3
 //@   sub R13 `for vs in ecu_map.values() {` => `let vx_nv = ecu_map.vx_nr_values(); let mut vx_vi: usize = 0; while vx_vi < vx_nv { let vs = ecu_map.vx_value_at(vx_vi); vx_vi += 1;`
 //@   sub R13 `for lc in ecu_lcs.iter().rev() {` => `let mut vx_lj: usize = ecu_lcs.len(); while vx_lj > 0 { vx_lj -= 1; let lc = &ecu_lcs[vx_lj];`
 //@   sub R13 `for lc in vs.iter().rev() {` => `let mut vx_lj: usize = vs.len(); while vx_lj > 0 { vx_lj -= 1; let lc = &vs[vx_lj];`
-//@   sub R12 `lcs_w.update(lc.id, new_lifecycle_item(lc, last_lcw_refresh_index))` => `lcs_w.vx_update(lc.id)` x2
-//@   sub R11 `last_lcw_refresh_index += 1;` => `vx_bump(&mut last_lcw_refresh_index);` x2
-//@   sub R8 `buffered_msgs[0].lifecycle` => `buffered_msgs.vx_first().lifecycle`
+//@   sub R12 `lcs_w.update(` => `lcs_w.vx_update(` *
+//@   sub R11 `last_lcw_refresh_index += 1;` => `vx_bump(&mut last_lcw_refresh_index);` *
+//@   sub R8 `buffered_msgs[0].lifecycle` => `buffered_msgs.vx_first().lifecycle` *
 //@   sub R13 `for m in buffered_msgs.into_iter() {` => `loop { let m = match buffered_msgs.pop_front() { Some(vx_m) => vx_m, None => break };`
 //@   sub R4 `assert(buffered_lcs.contains(&lc2.id));` => `assert(buffered_lcs.ids().contains(lc2.id)); // O:stream.assert_buffered`
-//@   sub R12 `outflow(msg)` => `outflow.send(msg)` *
-//@   sub R12 `outflow(m)` => `outflow.send(m)` *
+//@   sub R12 `outflow(msg)` => `outflow.send(msg, Ghost(lcs_w.visible()))` *
+//@   sub R12 `outflow(m)` => `outflow.send(m, Ghost(lcs_w.visible()))` *
 //@   spec
 //@|    requires
 //@|        forall|i: int| 0 <= i < inflow.rem().len() ==> msg_in_ok(#[trigger] inflow.rem()[i]),
 //@|        lcs_w.visible_msgs() + inflow.rem().len() <= u32::MAX,
+//@|        lcs_w.pending() =~= Map::<u32, Lifecycle>::empty(), // nothing written to the handle is waiting for a refresh
 //@|    ensures
 //@|        // every received message is forwarded exactly once, in the order received, unchanged except for a non-zero lifecycle id
 //@|        old(outflow).never_fails() ==> fwd_ok(final(outflow).log(), old(outflow).log(), inflow.rem()), // O:stream.forward
@@ -222,11 +627,19 @@ pub fn vx_check_regular_refresh<T: VLcTable>(last_regular_refresh_index: &mut u3
 //@|    let ghost mut k: int = 0;
 //@|    let ghost mut all_b: Seq<DltMessage> = Seq::empty();
 //@|    let ghost mut l_fin: Seq<Lifecycle> = Seq::empty();
-//@|    proof { assert(outflow.log() + buffered_msgs.q() =~= log0); assert(ms0.take(0) =~= Seq::<DltMessage>::empty()); }
+//@|    let ghost mut pos: Pos = vx_pos0@;
+//@|    proof {
+//@|        assert(outflow.log() + buffered_msgs.q() =~= log0); assert(ms0.take(0) =~= Seq::<DltMessage>::empty());
+//@|        assert(known_ok(pos, buffered_lcs.ids(), lcs_w.visible())) by { reveal(known_ok); }
+//@|        assert(tab_ok(lcs_w.pending(), pos)) by { reveal(tab_ok); }
+//@|        lemma_queued_empty(pos);
+//@|    }
 //@   hint before `last_msg_index = msg.index;`
 //@|    let ghost m_in = msg;
 //@|    let ghost map0 = ecu_map.m();
 //@|    let ghost tot0 = ecu_map.total();
+//@|    let ghost pos0 = pos;
+//@|    let ghost buf0 = buffered_lcs.ids();
 //@|    proof {
 //@|        assert(m_in == ms0[k]);
 //@|        assert(ms0.skip(k).skip(1) =~= ms0.skip(k + 1));
@@ -271,30 +684,62 @@ pub fn vx_check_regular_refresh<T: VLcTable>(last_regular_refresh_index: &mut u3
 //@|        assert(msg.same_but_lifecycle(&m_in) && msg.lifecycle != 0); // O:stream.assigned (the message is unchanged except for a non-zero lifecycle id)
 //@|        assert(arm == 1 || arm == 2 || arm == 3);
 //@|        assert(remove_last_lc <==> arm == 2);
+//@|        let e = m_in.ecu;
+//@|        assert(list_at(map0, e) == l0);
 //@|        if arm == 1 {
 //@|            assert(l_fin == rest0.push(g_lc2));
 //@|            lemma_total_push(rest0, g_lc2);
 //@|            lemma_list_ok_push(m_in.ecu, rest0, g_lc2);
+//@|            assert(same_ids(l_fin, l0)) by { assert forall|i: int| 0 <= i < l_fin.len() implies (#[trigger] l_fin[i]).id == l0[i].id by { if i < rest0.len() { assert(l_fin[i] == rest0[i]); assert(l0[i] == rest0[i]); } } }
+//@|            lemma_step_same(pos0, map0, e, l_fin);
+//@|            assert(buffered_lcs.ids() == buf0);
 //@|        } else if arm == 2 {
 //@|            assert(l_fin == rest0.drop_last().push(g_prev).push(g_lc2));
 //@|            assert(l_fin.drop_last() =~= rest0.drop_last().push(g_prev));
 //@|            lemma_total_push(rest0.drop_last(), g_prev);
 //@|            lemma_list_ok_push(m_in.ecu, rest0.drop_last(), g_prev);
+//@|            assert(same_ids(l_fin, l0)) by { assert forall|i: int| 0 <= i < l_fin.len() implies (#[trigger] l_fin[i]).id == l0[i].id by { if i < l_fin.len() - 2 { assert(l_fin[i] == rest0.drop_last()[i]); assert(l0[i] == rest0.drop_last()[i]); } else if i == l_fin.len() - 2 { assert(l0[i] == rest0.last()); } } }
+//@|            lemma_step_merge(pos0, map0, e, l_fin, buf0, lcs_w.visible(), lcs_w.pending(), q_a, buffered_msgs.q());
+//@|            pos = pos0.remove(g_lc2.id);
+//@|            assert(buffered_lcs.ids() =~= buf0.remove(g_lc2.id));
+//@|            if nf { lemma_fwd_relabel(log_a, q_a, buffered_msgs.q(), log0, ms0.take(k - 1), g_lc2.id, g_prev.id); }
 //@|        } else {
 //@|            assert(l_fin == rest0.push(g_lc2).push(g_new));
 //@|            lemma_total_2(rest0, g_lc2, g_new);
 //@|            lemma_list_ok_push(m_in.ecu, rest0, g_lc2);
 //@|            lemma_list_ok_push(m_in.ecu, rest0.push(g_lc2), g_new);
+//@|            let l1 = rest0.push(g_lc2);
+//@|            assert(same_ids(l1, l0)) by { assert forall|i: int| 0 <= i < l1.len() implies (#[trigger] l1[i]).id == l0[i].id by { if i < rest0.len() { assert(l1[i] == rest0[i]); assert(l0[i] == rest0[i]); } } }
+//@|            axiom_fresh_lc_id(g_new.id, pos0, lcs_w.pending(), lcs_w.visible());
+//@|            lemma_step_new(pos0, map0, e, l1, g_new, buf0, lcs_w.visible(), lcs_w.pending(), buffered_msgs.q());
+//@|            pos = pos0.insert(g_new.id, (e, l1.len() as int));
+//@|            assert(buffered_lcs.ids() =~= buf0.insert(g_new.id));
 //@|        }
 //@|        assert(!remove_last_lc ==> list_ok(m_in.ecu, l_fin) && seq_total(l_fin) == seq_total(l0) + 1); // O:stream.lcs.count
 //@|        assert(remove_last_lc ==> l_fin.len() == ecu_lcs_len && list_ok(m_in.ecu, l_fin.drop_last()) && seq_total(l_fin.drop_last()) == seq_total(l0) + 1); // O:stream.lcs.merge_count
-//@|        if nf && arm == 2 { lemma_fwd_relabel(log_a, q_a, buffered_msgs.q(), log0, ms0.take(k - 1), g_lc2.id, g_prev.id); }
 //@|        assert(nf ==> fwd_ok(outflow.log() + buffered_msgs.q(), log0, ms0.take(k - 1))); // O:stream.relabel.fifo
+//@|        assert(pos_inv(pos, map0.insert(e, if remove_last_lc { l_fin.drop_last() } else { l_fin }))); // O:publish.step.pos
+//@|        assert(queued_ok(pos, buffered_msgs.q())); // O:publish.step.queued (every queued message's lifecycle is a lifecycle of its ECU in the map)
+//@|        assert(known_ok(pos, buffered_lcs.ids(), lcs_w.visible())); // O:publish.step.known (every lifecycle in the map is buffered or visible)
+//@|        assert(tab_ok(lcs_w.visible(), pos) && tab_ok(lcs_w.pending(), pos));
+//@|        assert(located(pos, msg)); // O:stream.assigned_ecu (the id denotes a lifecycle of the message's own ECU)
 //@|    }
 //@   hint after `let _removed = ecu_lcs.remove(`
-//@|    proof { assert(ecu_lcs@ =~= l_fin.drop_last()); l_fin = ecu_lcs@; all_b = outflow.log() + buffered_msgs.q(); }
+//@|    proof {
+//@|        assert(ecu_lcs@ =~= l_fin.drop_last()); l_fin = ecu_lcs@; all_b = outflow.log() + buffered_msgs.q();
+//@|        if buffered_lcs.ids() =~= Set::<u32>::empty() { lemma_all_sendable(pos, buffered_lcs.ids(), lcs_w.visible(), buffered_msgs.q()); }
+//@|    }
 //@   hint after `ecu_lcs.push(lc);`
-//@|    proof { assert(buffered_lcs.ids().contains(lc.id)); l_fin = ecu_lcs@; lemma_total_push(l0, lc); assert(l_fin == l0.push(lc)); lemma_list_ok_push(m_in.ecu, l0, lc); }
+//@|    proof {
+//@|        assert(buffered_lcs.ids().contains(lc.id)); l_fin = ecu_lcs@; lemma_total_push(l0, lc); assert(l_fin == l0.push(lc)); lemma_list_ok_push(m_in.ecu, l0, lc);
+//@|        assert(list_at(map0, m_in.ecu) == l0);
+//@|        assert(same_ids(l0, l0));
+//@|        axiom_fresh_lc_id(lc.id, pos0, lcs_w.pending(), lcs_w.visible());
+//@|        lemma_step_new(pos0, map0, m_in.ecu, l0, lc, buf0, lcs_w.visible(), lcs_w.pending(), buffered_msgs.q());
+//@|        pos = pos0.insert(lc.id, (m_in.ecu, 0int));
+//@|        assert(buffered_lcs.ids() =~= buf0.insert(lc.id));
+//@|        assert(located(pos, msg));
+//@|    }
 //@   hint before `if next_buffer_check_time < msg_reception_time_us {`
 //@|    proof {
 //@|        assert(ecu_map.m() == map0.insert(m_in.ecu, l_fin));
@@ -305,8 +750,34 @@ pub fn vx_check_regular_refresh<T: VLcTable>(last_regular_refresh_index: &mut u3
 //@|        assert(nf ==> fwd_ok(outflow.log() + buffered_msgs.q(), log0, ms0.take(k - 1)));
 //@|        assert(nf ==> queue_inv(&buffered_lcs, &buffered_msgs)); // O:stream.mid.queue
 //@|        all_b = outflow.log() + buffered_msgs.q();
+//@|        assert(pos_inv(pos, ecu_map.m())); // O:publish.mid.pos
+//@|        assert(queued_ok(pos, buffered_msgs.q()) && known_ok(pos, buffered_lcs.ids(), lcs_w.visible()) && tab_ok(lcs_w.visible(), pos) && tab_ok(lcs_w.pending(), pos)); // O:publish.mid
+//@|        assert(located(pos, msg));
 //@|    }
-//@   hint before `if !buffered_lcs.is_empty() {`
+//@   hint before 1 `let msg = buffered_msgs.pop_front().unwrap();`
+//@|    let ghost qq1 = buffered_msgs.q();
+//@|    proof { lemma_queued_skip(pos, qq1); }
+//@   hint before `buffered_lcs.remove(&lc.id);`
+//@|    let ghost b_pre = buffered_lcs.ids();
+//@|    let ghost vis_pre = lcs_w.visible();
+//@|    let ghost pen_pre = lcs_w.pending();
+//@   hint before `let mut prune_lc_id = lc.id;`
+//@|    proof {
+//@|        let item = lcs_w.pending()[lc.id];
+//@|        let e = ecu_map.keys()[vx_vi - 1];
+//@|        assert(ecu_map.m()[e][vx_lj as int] == *lc);
+//@|        lemma_confirm(pos, ecu_map.m(), e, vx_lj as int, item, b_pre, vis_pre, pen_pre);
+//@|        assert(lcs_w.pending() =~= pen_pre.insert(lc.id, item));
+//@|        assert(buffered_lcs.ids() =~= b_pre.remove(lc.id));
+//@|        lemma_unbuffered_sendable(pos, buffered_lcs.ids(), lcs_w.visible(), buffered_msgs.q());
+//@|    }
+//@   hint before 2 `let msg = buffered_msgs.pop_front().unwrap();`
+//@|    let ghost qq2 = buffered_msgs.q();
+//@|    proof { lemma_queued_skip(pos, qq2); }
+//@   hint before 3 `let msg = buffered_msgs.pop_front().unwrap();`
+//@|    let ghost qq3 = buffered_msgs.q();
+//@|    proof { lemma_queued_skip(pos, qq3); }
+//@   hint before last `if !buffered_lcs.is_empty() {` ||| `if buffered_lcs.is_empty() {`
 //@|    proof {
 //@|        assert(nf ==> outflow.log() + buffered_msgs.q() == all_b);
 //@|        if nf {
@@ -314,12 +785,55 @@ pub fn vx_check_regular_refresh<T: VLcTable>(last_regular_refresh_index: &mut u3
 //@|            assert((outflow.log() + buffered_msgs.q()).push(msg) =~= outflow.log() + buffered_msgs.q().push(msg));
 //@|            if buffered_msgs.q().len() == 0 { assert((outflow.log() + buffered_msgs.q()).push(msg) =~= outflow.log().push(msg) + buffered_msgs.q()); }
 //@|        }
+//@|        lemma_queued_push(pos, buffered_msgs.q(), msg);
 //@|    }
-//@   hint after 2 `vx_bump(&mut last_lcw_refresh_index);`
+//@|    let ghost vis_r3 = lcs_w.visible();
+//@   hint before last `outflow.send(msg`
+//@|    proof {
+//@|        lemma_known_monotone(pos, buffered_lcs.ids(), vis_r3, lcs_w.visible());
+//@|        lemma_one_sendable(pos, buffered_lcs.ids(), lcs_w.visible(), msg);
+//@|    }
+//@   hint before `let mut nr_lcs_to_update = buffered_lcs.len();`
+//@|    let ghost bset = buffered_lcs.ids();
+//@|    let ghost mut found: Set<u32> = Set::empty();
+//@|    let ghost vis_f = lcs_w.visible();
+//@   hint after `let mut nr_lcs_to_update = buffered_lcs.len();`
+//@|    proof { lemma_pub_init(pos, &ecu_map, bset, lcs_w.pending()); }
+//@   hint before `let mut vx_lj: usize = vs.len();`
+//@|    proof {
+//@|        lemma_pub_enter(pos, &ecu_map, bset, found, vx_vi as int);
+//@|        if vs.len() == 0 { lemma_pub_leave(pos, &ecu_map, bset, found, vx_vi as int); }
+//@|    }
+//@   hint before `if buffered_lcs.contains(&lc.id) {`
+//@|    let ghost pen_p = lcs_w.pending();
+//@|    proof {
+//@|        assert(ecu_map.m()[ecu_map.keys()[vx_vi - 1]][vx_lj as int] == *lc);
+//@|        if !bset.contains(lc.id) {
+//@|            lemma_pub_skip(pos, &ecu_map, bset, found, vx_vi as int, vx_lj as int);
+//@|            if vx_lj == 0 { lemma_pub_leave(pos, &ecu_map, bset, found, vx_vi as int); }
+//@|        }
+//@|    }
+//@   hint after last `lcs_w.vx_update(lc.id`
+//@|    proof {
+//@|        let e = ecu_map.keys()[vx_vi - 1];
+//@|        let item = lcs_w.pending()[lc.id];
+//@|        assert(lcs_w.pending() =~= pen_p.insert(lc.id, item));
+//@|        lemma_publish(pos, ecu_map.m(), e, vx_lj as int, item, pen_p);
+//@|        lemma_pub_found(pos, &ecu_map, bset, found, pen_p, item, nr_lcs_to_update as int, vx_vi as int, vx_lj as int);
+//@|        found = found.insert(lc.id);
+//@|        if vx_lj == 0 { lemma_pub_leave(pos, &ecu_map, bset, found, vx_vi as int); }
+//@|    }
+//@   hint before last `lcs_w.refresh();`
+//@|    let ghost pen_f = lcs_w.pending();
+//@|    proof { lemma_pub_all(pos, &ecu_map, bset, found, pen_f, nr_lcs_to_update as int, vx_vi as int); }
+//@   hint after last `vx_bump(&mut last_lcw_refresh_index);`
 //@|    let ghost all_e = outflow.log() + buffered_msgs.q();
+//@|    proof {
+//@|        lemma_final_refresh(pos, bset, vis_f, pen_f, buffered_msgs.q());
+//@|    }
 //@   hint before `^lcs_w`
 //@|    proof { if nf { assert(ms0.take(k) =~= ms0); assert(outflow.log() + buffered_msgs.q() =~= outflow.log()); } }
-//@   loop @1 `loop` has `inflow.recv()`
+//@   loop inner `inflow.recv()`
 //@|    invariant
 //@|        0 <= k <= ms0.len(), inflow.rem() == ms0.skip(k), max_buffering_delay_us == 60_000_000,
 //@|        forall|i: int| 0 <= i < ms0.len() ==> msg_in_ok(#[trigger] ms0[i]),
@@ -329,54 +843,76 @@ pub fn vx_check_regular_refresh<T: VLcTable>(last_regular_refresh_index: &mut u3
 //@|        map_ok(ecu_map.m()), // O:stream.inv.map
 //@|        ecu_map.total() + (ms0.len() - k) <= u32::MAX, // O:stream.inv.budget
 //@|        outflow.log().len() >= log0.len(),
+//@|        last_regular_refresh_index <= u32::MAX - 100_000 && last_msg_index <= u32::MAX - 100_000,
+//@|        pos_inv(pos, ecu_map.m()), // O:publish.inv.pos (lifecycle ids are pairwise distinct; pos locates each)
+//@|        tab_ok(lcs_w.visible(), pos) && tab_ok(lcs_w.pending(), pos), // O:publish.inv.ecu (a table entry carries the ECU its lifecycle is stored under)
+//@|        known_ok(pos, buffered_lcs.ids(), lcs_w.visible()), // O:publish.inv.known (every lifecycle in the map is still buffered or already visible)
+//@|        queued_ok(pos, buffered_msgs.q()), // O:publish.inv.queued (the lifecycle of every queued message is a lifecycle of its own ECU in the map)
 //@|    ensures
 //@|        nf ==> k == ms0.len(),
 //@|    decreases ms0.len() - k,
-//@   loop @1 `while !buffered_msgs.is_empty()` has `last_lc_id`
+//@   loop inner `last_lc_id = msg_lc`
 //@|    invariant
 //@|        outflow.never_fails() == nf,
 //@|        nf ==> outflow.log() + buffered_msgs.q() == all_b, // O:stream.flush.fifo
 //@|        outflow.log().len() >= log0.len(),
+//@|        queued_ok(pos, buffered_msgs.q()),
+//@|        forall|i: int| 0 <= i < buffered_msgs.q().len() ==> sendable(lcs_w.visible(), #[trigger] buffered_msgs.q()[i]), // O:publish.flush.sendable
 //@|    ensures
 //@|        nf ==> buffered_msgs.q().len() == 0,
 //@|    decreases buffered_msgs.q().len(),
-//@   loop @1 `while vx_vi < vx_nv` has `prune_lc_id`
+//@   loop inner `let mut vx_lj: usize = ecu_lcs.len()`
 //@|    invariant
 //@|        vx_vi <= vx_nv, outflow.never_fails() == nf,
 //@|        nf ==> outflow.log() + buffered_msgs.q() == all_b, // O:stream.confirm.fifo
 //@|        outflow.log().len() >= log0.len(),
 //@|        nf ==> queue_inv(&buffered_lcs, &buffered_msgs), // O:stream.confirm.queue
+//@|        tab_ok(lcs_w.visible(), pos) && tab_ok(lcs_w.pending(), pos), known_ok(pos, buffered_lcs.ids(), lcs_w.visible()), queued_ok(pos, buffered_msgs.q()), // O:publish.confirm.inv
 //@|    decreases vx_nv - vx_vi,
-//@   loop @1 `while vx_lj > 0` has `prune_lc_id`
+//@   loop inner `let mut prune_lc_id`
 //@|    invariant
 //@|        vx_lj <= ecu_lcs.len(), outflow.never_fails() == nf,
 //@|        nf ==> outflow.log() + buffered_msgs.q() == all_b, // O:stream.confirm.inner.fifo
 //@|        outflow.log().len() >= log0.len(),
 //@|        nf ==> queue_inv(&buffered_lcs, &buffered_msgs), // O:stream.confirm.inner.queue
+//@|        tab_ok(lcs_w.visible(), pos) && tab_ok(lcs_w.pending(), pos), known_ok(pos, buffered_lcs.ids(), lcs_w.visible()), queued_ok(pos, buffered_msgs.q()), // O:publish.confirm.inner.inv
 //@|    decreases vx_lj,
-//@   loop @1 `while !buffered_msgs.is_empty()` has `prune_lc_id`
+//@   loop inner `prune_lc_id = msg_lc`
 //@|    invariant
 //@|        outflow.never_fails() == nf,
 //@|        nf ==> outflow.log() + buffered_msgs.q() == all_b, // O:stream.prune.fifo
 //@|        outflow.log().len() >= log0.len(),
+//@|        queued_ok(pos, buffered_msgs.q()),
+//@|        !buffered_lcs.ids().contains(prune_lc_id), // O:publish.prune.confirmed (only messages of confirmed lifecycles are released)
+//@|        forall|i: int| 0 <= i < buffered_msgs.q().len() && !buffered_lcs.ids().contains((#[trigger] buffered_msgs.q()[i]).lifecycle) ==> sendable(lcs_w.visible(), buffered_msgs.q()[i]), // O:publish.prune.sendable
 //@|    ensures
 //@|        nf ==> queue_inv(&buffered_lcs, &buffered_msgs), // O:stream.prune.queue
 //@|    decreases buffered_msgs.q().len(),
-//@   loop @1 `while vx_vi < vx_nv` has `nr_lcs_to_update`
+//@   loop inner `let mut vx_lj: usize = vs.len()`
 //@|    invariant
-//@|        vx_vi <= vx_nv,
+//@|        vx_vi <= vx_nv, lcs_w.visible() == vis_f, tab_ok(lcs_w.pending(), pos),
+//@|        pub_cnt(pos, bset, found, lcs_w.pending(), nr_lcs_to_update as int), // O:publish.final.count
+//@|        nr_lcs_to_update > 0 ==> pub_done_keys(pos, &ecu_map, bset, found, vx_vi as int), // O:publish.final.visited
+//@|    ensures
+//@|        nr_lcs_to_update == 0 || vx_vi == vx_nv,
 //@|    decreases vx_nv - vx_vi,
-//@   loop @1 `while vx_lj > 0` has `nr_lcs_to_update`
+//@   loop inner `nr_lcs_to_update -= 1`
 //@|    invariant_except_break
 //@|        nr_lcs_to_update > 0,
+//@|        pub_cur(pos, &ecu_map, bset, found, vx_vi as int, vx_lj as int),
+//@|        vx_lj == 0 ==> pub_done_keys(pos, &ecu_map, bset, found, vx_vi as int),
 //@|    invariant
-//@|        vx_lj <= vs.len(),
+//@|        vx_lj <= vs.len(), lcs_w.visible() == vis_f, tab_ok(lcs_w.pending(), pos), 1 <= vx_vi <= vx_nv,
+//@|        pub_cnt(pos, bset, found, lcs_w.pending(), nr_lcs_to_update as int),
+//@|    ensures
+//@|        nr_lcs_to_update > 0 ==> pub_done_keys(pos, &ecu_map, bset, found, vx_vi as int),
 //@|    decreases vx_lj,
-//@   loop @1 `loop` has `buffered_msgs.pop_front() { Some(vx_m)`
+//@   loop inner `buffered_msgs.pop_front() { Some(vx_m)`
 //@|    invariant
 //@|        outflow.never_fails() == nf,
 //@|        nf ==> outflow.log() + buffered_msgs.q() == all_e, // O:stream.final.fifo
 //@|        outflow.log().len() >= log0.len(),
+//@|        forall|i: int| 0 <= i < buffered_msgs.q().len() ==> sendable(lcs_w.visible(), #[trigger] buffered_msgs.q()[i]), // O:publish.final.sendable
 //@|    ensures
 //@|        nf ==> buffered_msgs.q().len() == 0,
 //@|    decreases buffered_msgs.q().len(),
